@@ -39,7 +39,7 @@
 (*            the correctly rounded true value (RN of a point of the       *)
 (*            enclosure; the table value for poles / infinite inputs) has  *)
 (*            NO failing clause, and the same result with one component    *)
-(*            moved by 17 lattice steps (or replaced by NaN) has one       *)
+(*            moved by 18 lattice steps (or replaced by NaN) has one       *)
 (* States: root -> <<"group", law, fn>> -> the instances.  The driver      *)
 (* checks that the number of distinct states equals 1 + groups + the sum   *)
 (* of the printed group sizes.                                             *)
@@ -192,9 +192,9 @@ Ideal(fn, x, y) ==
         LET d == PoleTable(fn, sx, sy) IN <<OfDesc(fn, d.re), OfDesc(fn, d.im)>>
       ELSE LET t == TrueVal(fn, Val(f, x), Val(f, y), sx, sy, 96)
            IN  <<OfIv(t.re, ExpZero(fn, "re", sx, sy)), OfIv(t.im, ExpZero(fn, "im", sx, sy))>>
-\* 17 lattice steps away from zero, or toward zero when that would pass infinity (never across zero: the
+\* 18 lattice steps (16 + 1 for a tie + 1) away from zero, or toward zero when that would pass infinity (never across zero: the
 \* mirror image is the value of the other side of a cut); Movable: one of the two is possible
-Step == NFromInt(17)
+Step == NFromInt(18)
 Movable(w) == ~IsNaN(Toy, w) /\ (NCmp(NAdd(Mag(Toy, w), Step), InfMag(Toy)) <= 0 \/ NCmp(Mag(Toy, w), Step) >= 0)
 Moved(w) == LET far == NAdd(Mag(Toy, w), Step)
             IN  IF NCmp(far, InfMag(Toy)) <= 0 THEN WithSign(Toy, SignBit(Toy, w), far)
